@@ -198,3 +198,176 @@ Proof.
   - constructor. now apply IH.
   - constructor. now apply IHF.
 Qed.
+
+(* ------------------------------------------------------------------ *)
+(* the executable judge [ticker_ok] (used by prop_ok on OBSERVED completions) accepts what the
+   channel machine does, on every history: it cannot alarm on an implementation that agrees
+   with the model *)
+
+Fixpoint incr_list (last : Z) (l : list Z) : Prop :=
+  match l with
+  | [] => True
+  | t :: l' => last < t /\ incr_list t l'
+  end.
+
+Lemma incr_list_snoc l : forall last j,
+  incr_list last l -> last < j -> Forall (fun t => t < j) l -> incr_list last (l ++ [j]).
+Proof.
+  induction l as [|t l IH]; intros last j Hi Hl Hf; cbn in *; [auto|].
+  destruct Hi as [H1 H2]. inversion Hf; subst. split; [assumption|]. apply IH; auto.
+Qed.
+
+Definition tick_at (o : option tkop) : bool := match o with Some TkTick => true | _ => false end.
+
+Record tinv (ops : list tkop) (j last ret got : Z) (s : fstate) : Prop := mkTinv
+  { ti_wf : fwf s;
+    ti_last : last < j;
+    ti_incr : incr_list last (fbuf s ++ fsendq s);
+    ti_ids : Forall (fun t => t < j /\ nth_is_tick ops t = true) (fbuf s ++ fsendq s);
+    ti_cnt : ret = got + Z.of_nat (length (fbuf s)) }.
+
+Lemma forall_weaken ops j l :
+  Forall (fun t => t < j /\ nth_is_tick ops t = true) l ->
+  Forall (fun t => t < j + 1 /\ nth_is_tick ops t = true) l.
+Proof. intros H. eapply Forall_impl; [|exact H]. cbn. intros a [H1 H2]. split; [lia|assumption]. Qed.
+
+Lemma forall_lt ops j l :
+  Forall (fun t => t < j /\ nth_is_tick ops t = true) l -> Forall (fun t => t < j) l.
+Proof. intros H. eapply Forall_impl; [|exact H]. cbn. intros a [H1 _]. exact H1. Qed.
+
+Lemma ticker_ok_step ops j last ret got d obs last' :
+  incr_from ops j last (received_of d) = Some last' ->
+  got + Z.of_nat (length (received_of d)) <= ret + Z.of_nat (length (accepted_of d)) ->
+  ret + Z.of_nat (length (accepted_of d)) <= got + Z.of_nat (length (received_of d)) + 1 ->
+  ticker_ok_from ops (j + 1) last' (ret + Z.of_nat (length (accepted_of d)))
+                 (got + Z.of_nat (length (received_of d))) obs = true ->
+  ticker_ok_from ops j last ret got (d :: obs) = true.
+Proof.
+  intros H1 H2 H3 H4. cbn [ticker_ok_from]. rewrite H1.
+  apply Z.leb_le in H2. apply Z.leb_le in H3. rewrite H2, H3. exact H4.
+Qed.
+
+Lemma incr_from_one ops j last t :
+  last < t -> t <= j -> nth_is_tick ops t = true -> incr_from ops j last [t] = Some t.
+Proof.
+  intros H1 H2 H3. cbn [incr_from]. apply Z.ltb_lt in H1. apply Z.leb_le in H2. now rewrite H1, H2, H3.
+Qed.
+
+Lemma stop_received rq sq j :
+  received_of (map (fun r : Z => (r, FClosed)) rq ++ map (fun t : Z => (t, FPanicked)) sq ++ [(j, FReturned)]) = [].
+Proof. now rewrite !received_app, received_closed, received_panicked. Qed.
+Lemma stop_accepted rq sq j :
+  accepted_of (map (fun r : Z => (r, FClosed)) rq ++ map (fun t : Z => (t, FPanicked)) sq ++ [(j, FReturned)]) = [].
+Proof. now rewrite !accepted_app, accepted_closed, accepted_panicked. Qed.
+
+Lemma incr_list_prefix buf sq last : incr_list last (buf ++ sq) -> incr_list last buf.
+Proof.
+  revert last. induction buf as [|b buf IH]; intros last H; cbn in *; [exact I|].
+  destruct H as [H1 H2]. split; auto.
+Qed.
+
+Lemma buf_len (buf : list Z) : (length buf <= 1)%nat -> 0 <= Z.of_nat (length buf) <= 1.
+Proof. lia. Qed.
+
+Lemma ticker_ok_from_model ops : forall rest j last ret got s,
+  (forall m, nth_is_tick ops (j + Z.of_nat m) = tick_at (nth_error rest m)) ->
+  tinv ops j last ret got s ->
+  ticker_ok_from ops j last ret got (frun s j rest) = true.
+Proof.
+  induction rest as [|o rest IH]; intros j last ret got s Hops Hinv; [reflexivity|].
+  assert (Hops' : forall m, nth_is_tick ops (j + 1 + Z.of_nat m) = tick_at (nth_error rest m)).
+  { intros m. specialize (Hops (S m)). cbn [nth_error] in Hops. rewrite <- Hops. f_equal. lia. }
+  assert (Hj : nth_is_tick ops j = tick_at (Some o)).
+  { specialize (Hops 0%nat). cbn [nth_error] in Hops. rewrite <- Hops. f_equal. cbn. lia. }
+  destruct Hinv as [(Hl & Hr & Hs) Hlast Hincr Hids Hcnt].
+  pose proof (buf_len _ Hl) as Hbl.
+  destruct s as [buf sq rq cl dn dq]. cbn [fbuf fsendq frecvq] in *.
+  (* the steps that neither send nor receive keep everything *)
+  assert (Hsame : forall d cl' rq' dn' dq',
+            received_of d = [] -> accepted_of d = [] -> (rq' = [] \/ buf = []) ->
+            ticker_ok_from ops j last ret got (d :: frun (mkF buf sq rq' cl' dn' dq') (j + 1) rest) = true).
+  { intros d cl' rq' dn' dq' Hd1 Hd2 Hrq. apply (ticker_ok_step ops j last ret got d _ last);
+      rewrite ?Hd1, ?Hd2; cbn [length Z.of_nat incr_from]; try reflexivity; try lia.
+    apply IH; [assumption|]. constructor; cbn [fbuf fsendq frecvq]; auto; try lia.
+    - repeat split; auto.
+    - now apply forall_weaken. }
+  cbn [frun]. destruct o; cbn [fstep fbuf fsendq frecvq fclosed fdone fdoneq].
+  - (* Tick *)
+    destruct cl; [now apply Hsame|].
+    destruct rq as [|r rq].
+    + destruct buf as [|t buf].
+      * destruct Hs as [Hs|Hs]; [subst sq|congruence].
+        apply (ticker_ok_step ops j last ret got _ _ last); cbn [received_of accepted_of flat_map snd fst app length Z.of_nat incr_from];
+          try reflexivity; try (cbn in Hcnt; lia).
+        apply IH; [assumption|]. constructor; cbn [fbuf fsendq frecvq app length]; try lia.
+        -- repeat split; cbn; auto; try (right; discriminate).
+        -- cbn. auto.
+        -- constructor; [|constructor]. split; [lia|]. rewrite Hj. reflexivity.
+        -- cbn in *. lia.
+      * destruct buf as [|? ?]; [|cbn in Hl; lia].
+        apply (ticker_ok_step ops j last ret got _ _ last); cbn [received_of accepted_of flat_map snd fst app length Z.of_nat incr_from];
+          try reflexivity; try (cbn in Hcnt; lia).
+        apply IH; [assumption|]. constructor; cbn [fbuf fsendq frecvq]; try lia.
+        -- repeat split; cbn; auto; try (right; discriminate).
+        -- rewrite app_assoc. apply incr_list_snoc; [assumption|lia|].
+           now apply (forall_lt ops).
+        -- rewrite app_assoc. apply Forall_app. split.
+           ++ now apply forall_weaken.
+           ++ constructor; [|constructor]. split; [lia|]. rewrite Hj. reflexivity.
+    + destruct Hr as [Hr|Hr]; [discriminate|]. subst buf.
+      destruct Hs as [Hs|Hs]; [subst sq|congruence].
+      apply (ticker_ok_step ops j last ret got _ _ j); cbn [received_of accepted_of flat_map snd fst app length Z.of_nat];
+        try (cbn in Hcnt; lia).
+      { apply incr_from_one; [lia|lia|]. rewrite Hj. reflexivity. }
+      apply IH; [assumption|]. constructor; cbn [fbuf fsendq frecvq app length]; try lia; cbn; auto.
+      * repeat split; cbn; auto.
+      * cbn in Hcnt. lia.
+  - (* Recv *)
+    destruct buf as [|t buf].
+    + destruct cl; [now apply Hsame|].
+      apply Hsame; auto.
+    + destruct buf as [|t2 buf]; [|cbn in Hl; lia]. cbn in Hcnt.
+      destruct Hr as [Hr|Hr]; [|discriminate]. subst rq.
+      cbn [app] in Hincr, Hids. destruct Hincr as [Hlt Hincr]. inversion Hids as [|? ? [Htj Htt] Hids']; subst.
+      destruct sq as [|t' sq].
+      * apply (ticker_ok_step ops j last (got + 1) got _ _ t); cbn [received_of accepted_of flat_map snd fst app length Z.of_nat];
+          try lia.
+        { apply incr_from_one; [lia|lia|assumption]. }
+        apply IH; [assumption|]. constructor; cbn [fbuf fsendq frecvq app length]; try lia; cbn; auto.
+        repeat split; cbn; auto.
+      * apply (ticker_ok_step ops j last (got + 1) got _ _ t); cbn [received_of accepted_of flat_map snd fst app length Z.of_nat];
+          try lia.
+        { apply incr_from_one; [lia|lia|assumption]. }
+        apply IH; [assumption|]. constructor; cbn [fbuf fsendq frecvq app length]; try lia.
+        -- repeat split; cbn; auto; try (right; discriminate).
+        -- exact Hincr.
+        -- now apply forall_weaken.
+  - (* Stop *)
+    destruct cl; [now apply Hsame|].
+    apply (ticker_ok_step ops j last ret got _ _ last); rewrite ?stop_received, ?stop_accepted;
+      cbn [length Z.of_nat incr_from]; try reflexivity; try lia.
+    apply IH; [assumption|]. constructor; cbn [fbuf fsendq frecvq]; auto; try lia.
+    + repeat split; auto.
+    + rewrite app_nil_r. now apply incr_list_prefix in Hincr.
+    + rewrite app_nil_r. apply Forall_app in Hids. destruct Hids as [Hb _]. now apply forall_weaken.
+  - (* Done *)
+    destruct dn; now apply Hsame.
+  - (* Wait *)
+    destruct dn; [destruct dq|]; now apply Hsame.
+Qed.
+
+Lemma nth_is_tick_spec ops : forall m, nth_is_tick ops (Z.of_nat m) = tick_at (nth_error ops m).
+Proof.
+  induction ops as [|o ops IH]; intros m; [destruct m; reflexivity|].
+  destruct m as [|m].
+  - cbn. destruct o; reflexivity.
+  - cbn [nth_is_tick nth_error]. replace (Z.of_nat (S m) =? 0) with false by (symmetry; apply Z.eqb_neq; lia).
+    replace (Z.of_nat (S m) - 1) with (Z.of_nat m) by lia. apply IH.
+Qed.
+
+Lemma ticker_judge_accepts_model ops : ticker_ok ops (frun finit 0 ops) = true.
+Proof.
+  unfold ticker_ok. apply ticker_ok_from_model.
+  - intros m. cbn. apply nth_is_tick_spec.
+  - constructor; cbn; auto; try lia. apply fwf_init.
+Qed.
